@@ -354,7 +354,42 @@ def collection_stream(ctx, n):
                 ctx.disagree("C18:collection:vertex-level-line:single", desc, "one point per triangle", f"{len(singles)} points from the single polygons", replay=[desc])
 
 
+def moved2d_stream(ctx, n):
+    """intersect on a polygon of the plane, then move it, then intersect again; and a polygon of space whose vertices carry
+    different homogeneous factors pierced level with a vertex"""
+    import geometer as g
+    rng = ctx.rng
+    for k in range(n):
+        w, h = rng.randint(2, 5), rng.randint(2, 4)
+        sh = [float(rng.choice([10, -7, 5])), float(rng.choice([0, 6, -9]))]
+        y = Fr(rng.randint(1, 2 * h - 1), 2)
+        desc = f"rectangle {w}x{h}: intersect y={y}, then moved by {sh}, then intersect y={y}+{sh[1]}"
+        ctx.case(desc)
+        ctx.count("moved2d")
+        def run():
+            P = g.Polygon(g.Point(0.0, 0.0), g.Point(float(w), 0.0), g.Point(float(w), float(h)), g.Point(0.0, float(h)))
+            first = P.intersect(g.Line(0.0, 1.0, -float(y)))
+            Q = g.translation(*sh) * P
+            return first, Q.intersect(g.Line(0.0, 1.0, -(float(y) + sh[1])))
+        r = call_impl(run)
+        exp = [[Fr(0) + Fr(sh[0]), y + Fr(sh[1]), Fr(1)], [Fr(w) + Fr(sh[0]), y + Fr(sh[1]), Fr(1)]]
+        compare_sets(ctx, "C18:moved2d", desc, exp, ("ok", r[1][1]) if r[0] == "ok" else r)
+        # mixed vertex factors in space, pierce point level with a vertex of the projected polygon
+        z = float(rng.randint(1, 4))
+        fac = [rng.choice([1.0, -1.0, 2.0, -0.5]) for _ in range(4)]
+        verts = [np.array([0.0, 0, z, 1]), np.array([2.0, -2, z, 1]), np.array([4.0, 0, z, 1]), np.array([2.0, 2, z, 1])]       # a diamond
+        D = g.Polygon(np.array([v * f for v, f in zip(verts, fac)]))
+        px = rng.choice([1.0, 2.0, 3.0, 5.0, -1.0])
+        L = g.Line(g.Point(px, 0.0, z - 3.0), g.Point(px, 0.0, z + 2.0))
+        expd = [[Fr(px), Fr(0), Fr(z), Fr(1)]] if 0 <= px <= 4 else []
+        descd = f"diamond at z={z} with vertex factors {fac} pierced at ({px}, 0)"
+        ctx.case(descd)
+        ctx.count("mixed-factors-3d")
+        compare_sets(ctx, "C18:mixed-factors-3d", descd, expd, call_impl(lambda: D.intersect(L)))
+
+
 def correspondence(ctx):
+    moved2d_stream(ctx, ctx.budget(20, 200))
     collection_stream(ctx, ctx.budget(30, 300))
     segseg_stream(ctx, ctx.budget(250, 0))
     seg3d_stream(ctx, ctx.budget(160, 3000))
